@@ -73,6 +73,7 @@ pub(crate) mod verif_timer {
                 i += 1;
             }
             oracle!(p, P15, svc.next_expiration() == mn, "C15 timer: next_expiration() differs from the smallest registered deadline");
+            oracle!(p, P01, svc.next_expiration() == mn, "C01 timer: the timer queue does not hold exactly the live registered futures (next_expiration() reports a deadline nobody waits for, or misses one)");
             if (p & P01) != 0 {
                 // C01: a dropped future is in no wait queue any more, so its task is never woken again
                 if dead[0] { assert!(c0a.n() == dsn[0][0] && c0b.n() == dsn[0][1], "C01 timer: the task of a dropped future was woken (dangling waiter)"); }
@@ -459,8 +460,9 @@ pub(crate) mod verif_timer {
                 assert!(svc.next_expiration() == mn, "C15 timer check2: next_expiration() differs from the smallest registered deadline");
             }
             if (p & P01) != 0 {
-                assert!(due0 == f0.wait_node.verif_unlinked() || !r0, "C01 timer check2: an expired timer is still linked in the heap (or a pending one is not)");
-                assert!(due1 == f1.wait_node.verif_unlinked() || !r1, "C01 timer check2: an expired timer is still linked in the heap (or a pending one is not)");
+                let g = svc.inner.lock();
+                assert!(g.waiters.verif_contains(&f0.wait_node) == (r0 && !due0), "C01 timer check2: the heap does not contain exactly the registered, not yet expired timers");
+                assert!(g.waiters.verif_contains(&f1.wait_node) == (r1 && !due1), "C01 timer check2: the heap does not contain exactly the registered, not yet expired timers");
             }
             kani::cover!(due0 && due1 && d0 < d1, "W check2: two timers expire in order");
             kani::cover!(due0 && r1 && !due1, "W check2: one expires, one stays");
@@ -549,7 +551,8 @@ pub(crate) mod verif_timer {
         step_proof!(step_c01_drop, NoopLock, 1, 4, P01);
         step_proof!(step_c01_check_k3, NoopLock, 2, 3, P01);
         step_proof!(step_c01_check, NoopLock, 2, 4, P01);
-        step_proof!(step_c17, NoopLock, 3, 3, P17);
+        step_proof!(step_c17_poll, NoopLock, 0, 4, P17);
+        step_proof!(step_c17_drop, NoopLock, 1, 3, P17);
 
         #[kani::proof]
         #[kani::unwind(6)]
